@@ -27,14 +27,19 @@ Fixpoint op_eqb (a b : op) {struct a} : bool :=
   | OFail, OFail => true
   | OLock m b1, OLock m' b2 => Nat.eqb m m' && leq b1 b2
   | OCatch b1, OCatch b2 => leq b1 b2
+  | OBlock t1 n1 b1, OBlock t2 n2 b2 => Bool.eqb t1 t2 && Nat.eqb n1 n2 && leq b1 b2
+  | OExit t1 n1, OExit t2 n2 => Bool.eqb t1 t2 && Nat.eqb n1 n2
   | _, _ => false
   end.
 
 Definition fkind_eqb (a b : fkind) : bool :=
-  match a, b with KPlain, KPlain => true | KLock m, KLock m' => Nat.eqb m m' | KCatch, KCatch => true | _, _ => false end.
+  match a, b with KPlain, KPlain => true | KLock m, KLock m' => Nat.eqb m m' | KCatch, KCatch => true
+  | KBlock t1 n1, KBlock t2 n2 => Bool.eqb t1 t2 && Nat.eqb n1 n2 | _, _ => false end.
 Definition frame_eqb (a b : frame) : bool := fkind_eqb (fk a) (fk b) && list_eqb op_eqb (fops a) (fops b).
+Definition ext_eqb (a b : option (bool * nat)) : bool :=
+  match a, b with Some (t1, n1), Some (t2, n2) => Bool.eqb t1 t2 && Nat.eqb n1 n2 | None, None => true | _, _ => false end.
 Definition routine_eqb (a b : routine) : bool :=
-  Bool.eqb (unw a) (unw b) && val_eqb (got a) (got b) && Z.eqb (acc a) (acc b) &&
+  Bool.eqb (unw a) (unw b) && ext_eqb (ext a) (ext b) && val_eqb (got a) (got b) && Z.eqb (acc a) (acc b) &&
   list_eqb frame_eqb (stk a) (stk b) && list_eqb ev_eqb (log a) (log b).
 Definition entry_eqb (a b : entry) : bool := val_eqb (e_val a) (e_val b) && Nat.eqb (e_from a) (e_from b).
 Definition chan_eqb (a b : chanst) : bool :=
@@ -73,12 +78,15 @@ Proof. intros. apply Z.eqb_eq; auto. Qed.
 Lemma op_ind2 : forall P : op -> Prop,
   (forall c e, P (OPush c e)) -> (forall c, P (OPop c)) -> (forall c, P (ORange c)) -> (forall cs, P (OSelect cs)) ->
   (forall c, P (OClose c)) -> (forall x, P (OLoad x)) -> (forall x e, P (OStore x e)) -> P OFail ->
-  (forall m body, Forall P body -> P (OLock m body)) -> (forall body, Forall P body -> P (OCatch body)) -> forall o, P o.
+  (forall m body, Forall P body -> P (OLock m body)) -> (forall body, Forall P body -> P (OCatch body)) ->
+  (forall tb b body, Forall P body -> P (OBlock tb b body)) -> (forall tb b, P (OExit tb b)) -> forall o, P o.
 Proof.
-  intros P H1 H2 H3 H4 H5 H6 H7 H8 HL HC. fix IH 1. intros [c e|c|c|cs|c|x|x e| |m body|body].
+  intros P H1 H2 H3 H4 H5 H6 H7 H8 HL HC HB HE. fix IH 1. intros [c e|c|c|cs|c|x|x e| |m body|body|tb b body|tb b].
   - apply H1. - apply H2. - apply H3. - apply H4. - apply H5. - apply H6. - apply H7. - apply H8.
   - apply HL. revert body. fix IHl 1. intros [|x l]; constructor; [apply IH | apply IHl].
   - apply HC. revert body. fix IHl 1. intros [|x l]; constructor; [apply IH | apply IHl].
+  - apply HB. revert body. fix IHl 1. intros [|x l]; constructor; [apply IH | apply IHl].
+  - apply HE.
 Qed.
 
 Lemma op_eqb_sound : forall a b, op_eqb a b = true -> a = b.
@@ -99,6 +107,12 @@ Proof.
     match type of E with ?f body body0 = true =>
       assert (L : forall l1 l2, f l1 l2 = list_eqb op_eqb l1 l2) by (induction l1; destruct l2; simpl; auto; rewrite IHl1; auto) end.
     rewrite L in E. apply (list_eqb_sound_Forall _ op_eqb _ H). exact E.
+  - apply andb_true_iff in E. destruct E as [E1 E2]. apply andb_true_iff in E1. destruct E1 as [E0 E1].
+    apply eqb_prop in E0. apply Nat.eqb_eq in E1. subst. f_equal.
+    match type of E2 with ?f body body0 = true =>
+      assert (L : forall l1 l2, f l1 l2 = list_eqb op_eqb l1 l2) by (induction l1; destruct l2; simpl; auto; rewrite IHl1; auto) end.
+    rewrite L in E2. apply (list_eqb_sound_Forall _ op_eqb _ H). exact E2.
+  - apply andb_true_iff in E. destruct E as [E0 E1]. apply eqb_prop in E0. apply Nat.eqb_eq in E1. congruence.
 Qed.
 
 Lemma ev_eqb_sound : forall a b, ev_eqb a b = true -> a = b.
@@ -107,8 +121,17 @@ Proof.
   - f_equal. apply val_eqb_sound. exact E2.
   - apply Z.eqb_eq in E2. congruence.
 Qed.
-Lemma fkind_eqb_sound : forall a b, fkind_eqb a b = true -> a = b.
-Proof. destruct a, b; simpl; intros; try discriminate; auto. apply Nat.eqb_eq in H. congruence. Qed.
+Lemma fkind_eqb_sound : forall k1 k2, fkind_eqb k1 k2 = true -> k1 = k2.
+Proof.
+  intros k1 k2 H. destruct k1 as [|m1| |t1 n1], k2 as [|m2| |t2 n2]; simpl in H; try discriminate; auto.
+  - apply Nat.eqb_eq in H. congruence.
+  - apply andb_true_iff in H. destruct H as [A B]. apply eqb_prop in A. apply Nat.eqb_eq in B. congruence.
+Qed.
+Lemma ext_eqb_sound : forall a b, ext_eqb a b = true -> a = b.
+Proof.
+  destruct a as [[t1 n1]|], b as [[t2 n2]|]; simpl; intros; try discriminate; auto.
+  apply andb_true_iff in H. destruct H as [A B]. apply eqb_prop in A. apply Nat.eqb_eq in B. congruence.
+Qed.
 Lemma frame_eqb_sound : forall a b, frame_eqb a b = true -> a = b.
 Proof.
   destruct a, b; unfold frame_eqb; simpl; intros E. apply andb_true_iff in E. destruct E as [E1 E2].
@@ -117,7 +140,7 @@ Qed.
 Lemma routine_eqb_sound : forall a b, routine_eqb a b = true -> a = b.
 Proof.
   destruct a, b; unfold routine_eqb; simpl; intros E. repeat (apply andb_true_iff in E; destruct E as [E ?]).
-  apply eqb_prop in E. apply val_eqb_sound in H2. apply Z.eqb_eq in H1.
+  apply eqb_prop in E. apply ext_eqb_sound in H3. apply val_eqb_sound in H2. apply Z.eqb_eq in H1.
   apply (list_eqb_sound _ _ frame_eqb_sound) in H0. apply (list_eqb_sound _ _ ev_eqb_sound) in H. congruence.
 Qed.
 Lemma entry_eqb_sound : forall a b, entry_eqb a b = true -> a = b.
@@ -199,6 +222,8 @@ Proof.
   destruct (stk r) as [|f rest]; auto.
   destruct (unw r).
   { destruct (fk f); fin. }
+  destruct (ext r) as [[tb b]|].
+  { destruct (fk f) as [| m | | [] b']; destruct tb; destruct (fops f); fin. }
   destruct (fops f) as [|o ops'].
   { destruct (fk f); fin. }
   unfold exec. change (chs (erase s)) with (map erase_ch (chs s)). change (mus (erase s)) with (mus s).
@@ -236,6 +261,8 @@ Proof.
   - (* lock *)
     destruct (nth_error (mus s) m) as [[j|]|]; fin.
   - fin.
+  - fin.
+  - destruct (existsb _ _); fin.
 Qed.
 
 Definition is_some {A} (o : option A) : bool := match o with Some _ => true | None => false end.
@@ -266,6 +293,7 @@ Proof.
   intros s i k r R H. unfold step in *. rewrite R in *. destruct (parked s i); try discriminate.
   unfold max_choice. destruct (stk r) as [|f rest]; try discriminate.
   destruct (unw r). { exists 0. split; [destruct (fops f) as [|[] ?]; lia | auto]. }
+  destruct (ext r). { exists 0. split; [destruct (fops f) as [|[] ?]; lia | auto]. }
   destruct (fops f) as [|o ops']. { exists 0. split; [lia | auto]. }
   destruct o; try (exists 0; split; [lia | reflexivity]).
   (* select *)
@@ -284,7 +312,7 @@ Definition succs (s : state) : list state :=
 (* a cheap hash of a state; any function would do for the proofs *)
 Definition mix (h v : N) : N := N.modulo (h * 31 + v + 7) 1048573.
 Definition key_routine (r : routine) : N :=
-  fold_left (fun h f => mix (mix h (N.of_nat (length (fops f)))) (match fk f with KPlain => 0 | KLock m => 1 + N.of_nat m | KCatch => 100 end))
+  fold_left (fun h f => mix (mix h (N.of_nat (length (fops f)))) (match fk f with KPlain => 0 | KLock m => 1 + N.of_nat m | KCatch => 100 | KBlock _ b => 200 + N.of_nat b end))
             (stk r) (mix (mix (N.of_nat (length (log r))) (if unw r then 1 else 0)) (Z.to_N (Z.abs (acc r)))).
 Definition key (s : state) : positive :=
   N.succ_pos (fold_left (fun h r => mix h (key_routine r)) (rs s)
